@@ -214,7 +214,7 @@ impl Drop for Node {
         if sc.op != "none" && !sc.op.is_empty() {
             let op = Op { op: script_to_op(&sc.op).to_string(), a: sc.x, b: sc.y, d: Script::default() };
             // scripted call from inside the destructor; the owner of stored handles is `id`
-            let op = if sc.op == "UpgradeStored" || sc.op == "CloneStored" || sc.op == "DropStored" {
+            let op = if sc.op == "UpgradeStored" || sc.op == "CloneStored" || sc.op == "DropStored" || sc.op == "Take" {
                 Op { a: id, b: sc.x, ..op }
             } else {
                 op
@@ -856,14 +856,27 @@ fn exec(w: &mut World, op: &Op, in_dtor_of: Option<&Node>, dry: bool) -> Option<
             Some("ok".into())
         }
         "Take" => {
-            if !made(w, a) || !made(w, b) || !intact(w, a) {
+            if !made(w, a) || !made(w, b) {
                 return None;
             }
-            if !node(w, a).strong.borrow().iter().any(|e| e.target == b) {
+            let n: &Node = match in_dtor_of {
+                Some(n) if n.id == a => n,
+                _ => {
+                    if !intact(w, a) {
+                        return None;
+                    }
+                    node(w, a)
+                }
+            };
+            if !n.strong.borrow().iter().any(|e| e.target == b) {
+                return None;
+            }
+            // a destructor may only move out handles to objects that are not being destroyed
+            if in_dtor_of.is_some() && !intact(w, b) {
                 return None;
             }
             go!();
-            let sh = take_s(node(w, a), b)?;
+            let sh = take_s(n, b)?;
             w.roots[b as usize].push(sh.into_rc());
             Some("ok".into())
         }
@@ -1545,7 +1558,7 @@ fn drive_script(rng: &mut SmallRng, len: usize, nobj: u32, profile: &str, script
         if name == "New" && scripted < 2 && rng.gen_range(0..2) == 0 {
             // destructor script from the profile's menu; targets may be objects created later
             let menu: &[&str] = match profile {
-                "dtor10" => &["CloneRoot", "DropRoot", "Downgrade", "WeakDrop", "UpgradeWeak", "UpgradeStored", "Adopt", "Unadopt"],
+                "dtor10" => &["CloneRoot", "DropRoot", "Downgrade", "WeakDrop", "UpgradeWeak", "UpgradeStored", "Adopt", "Unadopt", "Take"],
                 "dtor16" => &["CloneStored", "DropStored"],
                 "dtor05" => &["UpgradeWeak", "UpgradeStored"],
                 "panic" => &["Panic"],
